@@ -44,7 +44,12 @@ type tunnelRig struct {
 	t             *tunnel.Tunnel
 	mgr           *tmgr
 	local, remote *memConn
+	client        *tclient
 }
+
+// notifyHold: how long a close notification is kept blocked on the "busy control connection" before it is let
+// through when the model says that more time than any send timeout has passed.
+const notifyHold = 3300 * time.Millisecond
 
 func probeTunnel() {
 	t := tunnel.NewTunnel(&tunnel.TunnelConfig{ID: "probe"})
@@ -52,13 +57,21 @@ func probeTunnel() {
 }
 
 func newTunnelRig(start string, free bool, seed int64) (*tunnelRig, error) {
+	return newTunnelRigN(start, free, seed, false)
+}
+
+func newTunnelRigN(start string, free bool, seed int64, slowNotify bool) (*tunnelRig, error) {
 	r := &tunnelRig{base: newBase(free, seed)}
+	r.client = &tclient{rec: r.rec}
+	if slowNotify {
+		r.client.hold, r.client.entered = make(chan struct{}), make(chan struct{})
+	}
 	r.mgr = &tmgr{DefaultTunnelManager: tunnel.NewTunnelManager(r.ctx, tunnel.TunnelRoleListen), r: r}
 	r.local, r.remote = newMemConn("local"), newMemConn("remote")
 	r.t = tunnel.NewTunnel(&tunnel.TunnelConfig{
 		ID: "t-1", MappingID: "pm-1", Role: tunnel.TunnelRoleListen, Protocol: "tcp",
 		LocalConn: r.local, TunnelRWC: r.remote, TargetClient: 9,
-		Manager: r.mgr, Client: &tclient{rec: r.rec},
+		Manager: r.mgr, Client: r.client,
 		OnClosed: func(reason tunnel.CloseReason, err error) {
 			r.s.Gate("cb", nil)
 			r.rec.add(fw.Event{"ev": "Ran", "h": "cb"})
@@ -105,6 +118,17 @@ func (r *tunnelRig) name(p string) string {
 	return p
 }
 
+// release lets a blocked close notification through (pending I/O unblocked).
+func (r *tunnelRig) release() {
+	if r.client.hold != nil {
+		select {
+		case <-r.client.hold:
+		default:
+			close(r.client.hold)
+		}
+	}
+}
+
 func (r *tunnelRig) finish() *fw.Trace {
 	if !r.s.Drain(5 * time.Second) {
 		return &fw.Trace{Status: fw.DriverError, Note: "tunnel: closers did not finish: " + fmt.Sprint(r.s.Procs())}
@@ -116,6 +140,7 @@ func (r *tunnelRig) finish() *fw.Trace {
 	// unblock pending I/O (Close has closed both connections already)
 	r.local.injectEOF()
 	r.remote.injectEOF()
+	r.release()
 	r.runOp("Start", func() error { return r.t.Start() })
 	r.runOp("GetStats", func() error { r.t.GetStats(); return nil })
 	r.runOp("NotifyPeerClosed", func() error { r.t.NotifyPeerClosed("again", nil); return nil })
@@ -125,9 +150,74 @@ func (r *tunnelRig) finish() *fw.Trace {
 	return r.trace("tunnel", false)
 }
 
+// driveTunnelMgrHistory: driver-made registration history on one tunnel manager (no race): a tunnel closed by its
+// peer, another one registered under the SAME id, a tunnel taken out of the manager and put back, one registered but
+// never started, a stale second close of the first tunnel - then the manager shuts down. Every tunnel the manager held
+// at that moment is closed (callback, per tunnel object) exactly once, the earlier one is not closed again, and
+// nothing is left running. (The counts are logged as one Round event.)
+func driveTunnelMgrHistory(beh behaviour, seed int64) *fw.Trace {
+	r := &tunnelRig{base: newBase(true, seed)}
+	r.mgr = &tmgr{DefaultTunnelManager: tunnel.NewTunnelManager(r.ctx, tunnel.TunnelRoleListen), r: r, quiet: true}
+	type tun struct {
+		t             *tunnel.Tunnel
+		cb            atomic.Int32
+		local, remote *memConn
+	}
+	var all []*tun
+	names := map[*tun]string{}
+	mk := func(name, id string, start bool) *tun {
+		x := &tun{local: newMemConn("local"), remote: newMemConn("remote")}
+		x.t = tunnel.NewTunnel(&tunnel.TunnelConfig{
+			ID: id, MappingID: "pm-1", Role: tunnel.TunnelRoleListen, Protocol: "tcp",
+			LocalConn: x.local, TunnelRWC: x.remote, TargetClient: 0, Manager: r.mgr, Client: nil,
+			OnClosed: func(reason tunnel.CloseReason, err error) { x.cb.Add(1) },
+		})
+		if err := r.mgr.RegisterTunnel(x.t); err != nil {
+			return nil
+		}
+		if start {
+			r.rec.guard("Start", func() { x.t.Start() })
+		}
+		all = append(all, x)
+		names[x] = name
+		return x
+	}
+	a1 := mk("a1", "t-a", true)
+	if a1 == nil {
+		return &fw.Trace{Status: fw.DriverError, Note: "tunnel manager refused the first tunnel"}
+	}
+	r.rec.guard("PeerClosed", func() { r.mgr.DefaultTunnelManager.OnTunnelClosed("t-a", "pm-1", "peer_closed", 0, 0, 0) })
+	mk("a2", "t-a", beh.Seed%2 == 0) // the id is used again
+	if b1 := mk("b", "t-b", true); b1 != nil && beh.Seed%2 == 1 {
+		r.mgr.DefaultTunnelManager.UnregisterTunnel("t-b")
+		r.mgr.RegisterTunnel(b1.t)
+	}
+	mk("c", "t-c", false) // registered, never started
+	r.rec.guard("Close", func() { a1.t.Close(tunnel.CloseReasonNormal, nil) }) // stale: the first tunnel again
+	r.rec.guard("PeerClosed", func() { a1.t.NotifyPeerClosed("again", nil) })
+	r.rec.add(fw.Event{"ev": "CloseCall", "p": "ctx"})
+	r.rec.guard("Close", func() { r.mgr.DefaultTunnelManager.Close() })
+	r.rec.add(fw.Event{"ev": "CloseRet", "p": "ctx"})
+	counts := map[string]any{}
+	for _, x := range all {
+		x.local.injectEOF()
+		x.remote.injectEOF()
+		counts["cb:"+names[x]] = int(x.cb.Load())
+	}
+	r.rec.add(fw.Event{"ev": "Round", "counts": counts})
+	r.rec.add(fw.Event{"ev": "CloseCall", "p": "z"})
+	r.rec.add(fw.Event{"ev": "CloseRet", "p": "z"})
+	r.quiesce("tunnel", false, 0)
+	r.cancel()
+	return r.trace("tunnel", false)
+}
+
 func driveTunnel(beh behaviour, seed int64) *fw.Trace {
 	if beh.Op == "startclose" {
 		return driveTunnelHammer(beh, seed)
+	}
+	if beh.Op == "mgr-history" {
+		return driveTunnelMgrHistory(beh, seed)
 	}
 	if beh.Free {
 		return driveTunnelFree(beh, seed)
@@ -135,7 +225,13 @@ func driveTunnel(beh behaviour, seed int64) *fw.Trace {
 	if !hooks.tunnel {
 		return &fw.Trace{Status: fw.Unrealisable, Note: "hook point " + hpTunnel + " absent in this tree"}
 	}
-	r, err := newTunnelRig(beh.Start, false, seed)
+	slow := false
+	for _, st := range beh.Steps {
+		if st.A == "NotifyTimeout" || st.A == "NotifyRelease" {
+			slow = true
+		}
+	}
+	r, err := newTunnelRigN(beh.Start, false, seed, slow)
 	if err != nil {
 		return &fw.Trace{Status: fw.DriverError, Note: err.Error()}
 	}
@@ -172,6 +268,15 @@ func driveTunnel(beh behaviour, seed int64) *fw.Trace {
 			}
 		case "StartCas", "Spawn":
 			// no gate of its own
+		case "NotifyTimeout": // the notification has been stuck for longer than any send timeout
+			select {
+			case <-r.client.entered:
+			case <-time.After(parkWait):
+				return r.unreal(i, "no close notification in flight")
+			}
+			time.Sleep(notifyHold)
+		case "NotifyRelease":
+			r.release()
 		case "Load":
 			if st.P == "copy" {
 				if st.R {
@@ -266,10 +371,8 @@ func driveTunnelFree(beh behaviour, seed int64) *fw.Trace {
 	close(gun)
 	done := make(chan struct{})
 	go func() { wg.Wait(); close(done) }()
-	select {
-	case <-done:
-	case <-time.After(10 * time.Second):
-		return &fw.Trace{Status: fw.DriverError, Note: "tunnel: free-running closers did not finish"}
+	if t := awaitFree(done, "tunnel: free-running closers"); t != nil {
+		return t
 	}
 	return r.finish()
 }
